@@ -66,6 +66,11 @@ def winding_case(els, q, kinds, stratum):
             return f'contains = {c_impl} but winding number is {w_true}'
         m = o['R' if kinds == 'poly' else 'F'][0]
         if m != i:
+            # the implementation has just been shown RIGHT by the exact oracle.  On a path with a degree-raised cubic (leading coefficient of rounding
+            # size: the ill-conditioned class of the known finding) the Float model and the crate may round differently after a harmless rewrite of
+            # `eval`; that is a difference of the model, not of the property - everywhere else model and crate must agree
+            if kinds != 'poly' and _has_negligible_cubic(els):
+                return None
             return f'CORR impl != model ({need[1]}): impl={i} model={m}'
         return None
     c = Case(line, need, judge, stratum, 'oracle')
